@@ -46,6 +46,13 @@ def run(ctx):
     ctx.rule("R20.4", "registry push only after engine/vAMM decimals equality", 1)
     ctx.rule("R20.5", "increase reply: open-interest cap and holding cap (on the stored size) hold on every success path unless whitelisted", 3)
 
+    # R20.6 a bound is only worth something if the setting it bounds is the one in force: every optional field of the
+    # two UpdateConfig arms that names a Config field is stored when supplied (shared rule, rules/cfgupdate.py)
+    from .cfgupdate import update_sticks
+    ctx.rule("R20.6", "every setting supplied in an UpdateConfig (engine, vAMM) is carried by the Config stored last on that path", 10)
+    update_sticks(ctx, "R20.6", ENG)
+    update_sticks(ctx, "R20.6", VAMM)
+
     specs = [(ENG, ["initial_margin_ratio", "maintenance_margin_ratio", "partial_liquidation_ratio", "liquidation_fee"]),
              (VAMM, ["toll_ratio", "spread_ratio", "fluctuation_limit_ratio"])]
     for (contract, fields) in specs:
